@@ -226,6 +226,13 @@ func ZZ_C11_convert_table() {
 			v := rv.MapIndex(reflect.ValueOf("k"))
 			return rv.Len() == 1 && v.IsValid() && v.Int() == i64
 		}},
+		{"map with a nil value->map[string]int64 keeps the entry as zero", map[interface{}]interface{}{"a": i64, "b": nil}, targets("map[string]int64"), true, func(rv reflect.Value) bool {
+			b := rv.MapIndex(reflect.ValueOf("b"))
+			return rv.Len() == 2 && b.IsValid() && b.Int() == 0
+		}},
+		{"slice with a nil element->[]int64 keeps the element as zero", []interface{}{i64, nil}, targets("[]int64"), true, func(rv reflect.Value) bool {
+			return rv.Len() == 2 && rv.Index(1).Int() == 0
+		}},
 		{"map with bool key->map[string]int64 fails", map[interface{}]interface{}{true: i64}, targets("map[string]int64"), false, nil},
 		{"int64->interface{} unchanged", i64, targets("interface{}"), true, func(rv reflect.Value) bool { return rv.Kind() == reflect.Int64 && rv.Int() == i64 }},
 		{"string->string", "s", targets("string"), true, func(rv reflect.Value) bool { return rv.String() == "s" }},
@@ -464,7 +471,16 @@ func ZZ_C11_callbacks() {
 	e.Define("applyVoid", func(f func()) { f() })
 	var seen int64
 	e.Define("see", func(v int64) { seen = v })
-	switch zz.Choose(7) {
+	switch zz.Choose(10) {
+	case 7:
+		_, err := Execute(e, nil, "applyVoid(func() { throw \"inside\" })")
+		zz.Assert(err != nil, "C11.callback/error-inside-a-callback-without-results-surfaces")
+	case 8:
+		_, err := Execute(e, nil, "applyVoid(func() { undefined_name })")
+		zz.Assert(err != nil, "C11.callback/error-inside-a-callback-without-results-surfaces")
+	case 9:
+		_, err := Execute(e, nil, "applyS(func(s) { throw \"inside\" })")
+		zz.Assert(err != nil, "C11.callback/error-inside-surfaces-as-error-of-the-call")
 	case 0:
 		r, err := Execute(e, nil, "apply(func(a) { return a + 1 })")
 		ri, ok := r.(int64)
